@@ -280,6 +280,17 @@ def run(repo: Repo, chk: Check) -> None:
             ok = len(res) == 1 and res[0].outcome == 'return' and res[0].value[0] == res[0].value[1]
             chk.ob('R-PAIR', fp.qualname, ok, f'{name}: entrypoint {ep} round-trips', fp.loc, {'outcome': [(p.outcome, vrepr(p.value)[:120]) for p in res]},
                    what=f'parameter {name}: building the value for entrypoint {ep} and converting it back fails or changes it: {[(p.outcome, vrepr(p.value)[:80]) for p in res][:1]}')
+        # absent parameters mean entrypoint `default` with Unit: from_parameters({}) is from_parameters({'entrypoint': 'default', 'value': Unit})
+        def absent(i, params):
+            v = i.call_function(FuncRef(fp, create(i), True), [params], {}, None, force_inline=True)
+            return full_of(v)
+
+        r_abs = mk_interp().run_paths(lambda i: absent(i, {}))
+        r_def = mk_interp().run_paths(lambda i: absent(i, {'entrypoint': 'default', 'value': {'prim': 'Unit'}}))
+        sig = lambda rs: sorted((p.outcome, vrepr(p.value)[:200] if p.outcome == 'return' else '') for p in rs)
+        chk.ob('R-PAIR', fp.qualname, sig(r_abs) == sig(r_def), f'{name}: absent parameters are entrypoint default with Unit', fp.loc,
+               {'absent': sig(r_abs)[:2], 'default_unit': sig(r_def)[:2]},
+               what=f'parameter {name}: from_parameters of absent parameters ({{}}) gives {sig(r_abs)[:1]}, the explicit (default, Unit) gives {sig(r_def)[:1]}')
         # unknown entrypoint rejected
         res = mk_interp().run_paths(lambda i: i.call_function(FuncRef(fp, create(i), True), [{'entrypoint': 'no_such_entrypoint', 'value': Sym('A')}], {}, None, force_inline=True))
         chk.ob('R-PATH', fp.qualname, bool(res) and all(p.outcome == 'raise' for p in res), f'{name}: unknown entrypoint rejected', fp.loc,
